@@ -691,6 +691,13 @@ package main
 //@   assigns GoMaps
 //@   allocs Arr:Int, Arr:Str, Arr:Val, Arr:Slice
 
+//@ func redactFieldNamesFromPlanSummary$1
+//@   safety C07
+//@   props C15
+//@   assigns GoMaps
+//@   allocs Arr:Int, Arr:Str, Arr:Val, Arr:Slice
+//@   loop 1 invariant frame: unchangedBelow("Arr:Str") && base(keys) > old(heapTop) && base(keys) <= heapTop
+
 //@ func ParsePlanSummary
 //@   safety C07
 //@   assigns GoMaps
